@@ -45,7 +45,22 @@ def clean(e, depth=0):
                     inner = inner[2]
                 if isinstance(inner, tuple) and inner[0] == "call" and (inner[1] or "").endswith("Try>::branch"):
                     return ("call", "propagate", tuple(clean(a2, depth + 1) for a2 in inner[2]), None, None)
+    if k == "call" and e[1] in ("std::cmp::min", "core::cmp::min", "std::cmp::max", "core::cmp::max"):
+        e = (e[0], "std::cmp::Ord::" + e[1].rsplit("::", 1)[1]) + tuple(e[2:])     # cmp::min(a, b) is Ord::min(a, b)
+    if k == "call" and len(e[2]) == 2 and shape.short_callee(e[1]) in OPERATOR_TRAITS and "::ops::" in (str(e[3]) if len(e) > 3 and e[3] else str(e[1])):
+        return ("bin", OPERATOR_TRAITS[shape.short_callee(e[1])], clean(e[2][0], depth + 1), clean(e[2][1], depth + 1), None)
+    if k == "call" and len(e[2]) == 2 and shape.short_callee(e[1]) in COMMUTATIVE:
+        args = tuple(clean(a, depth + 1) for a in e[2])
+        args = tuple(sorted(args, key=lambda a: shape.pp(a)))
+        return (e[0], e[1], args) + tuple(e[3:])
     return tuple(clean(x, depth + 1) if isinstance(x, tuple) else x for x in e)
+
+
+# operator-trait method calls (`&a + b` on references, or on user types) are rendered like the primitive operator
+OPERATOR_TRAITS = {"add": "Add", "sub": "Sub", "mul": "Mul", "bitand": "BitAnd", "bitor": "BitOr", "bitxor": "BitXor", "shl": "Shl", "shr": "Shr"}
+
+# two-argument std functions whose value does not depend on the order of their arguments
+COMMUTATIVE = {"Ord::min", "Ord::max", "min", "max", "wrapping_add", "wrapping_mul", "saturating_add", "saturating_mul", "checked_add", "checked_mul", "add", "mul", "bitand", "bitor", "bitxor"}
 
 
 def pp(e, arg_names=None):
@@ -130,3 +145,263 @@ def chain(body, e):
             continue
         break
     return out, x
+
+
+# ---------------------------------------------------------------------------------------------
+# position-aware expression trees: multiply-assigned locals are resolved by reaching definitions
+# (a single reaching definition = sequential update, several = phi with their branch conditions)
+from . import mir as _mir
+
+
+def _idx(si):
+    return 10 ** 6 if si == "term" else si
+
+
+def _reaching(body, l, pos):
+    """definitions (block, stmt index | 'term', rvalue-or-call) of whole local `l` that reach `pos`=(block, index)"""
+    defs = body.defs().get(l, [])
+    by_block = {}
+    for d in defs:
+        by_block.setdefault(d[0], []).append(d)
+    bi, si = pos
+    lim = 10 ** 6 + 1 if si == "end" else _idx(si)
+    here = [d for d in by_block.get(bi, []) if _idx(d[1]) < lim]
+    if here:
+        return [max(here, key=lambda d: _idx(d[1]))]
+    preds = body.preds()
+    seen = set()
+    out = []
+    st = list(preds[bi])
+    while st:
+        x = st.pop()
+        if x in seen:
+            continue
+        seen.add(x)
+        if x in by_block:
+            out.append(max(by_block[x], key=lambda d: _idx(d[1])))
+            continue
+        st.extend(preds[x])
+    return sorted(out, key=lambda d: (d[0], _idx(d[1])))
+
+
+class XB:
+    """a view of a mir.Body whose expression trees are built relative to a program position"""
+
+    def __init__(self, body, arg_names=None):
+        self.b = body
+        self.arg_names = arg_names
+        self._stack = []
+
+    def local_name(self, l):
+        return self.b.local_name(l)
+
+    def local_ty(self, l):
+        return self.b.local_ty(l)
+
+    def is_arg(self, l):
+        return self.b.is_arg(l)
+
+    def defs(self):
+        return self.b.defs()
+
+    def expr_of_operand(self, op, depth=12, at=None):
+        return _mir.Body.expr_of_operand(self, op, depth, at)
+
+    def expr_of_place(self, p, depth=12, at=None):
+        return _mir.Body.expr_of_place(self, p, depth, at)
+
+    def expr_of_rvalue(self, rv, depth=12, at=None):
+        return _mir.Body.expr_of_rvalue(self, rv, depth, at)
+
+    def expr_of_call(self, t, depth, dty=None, at=None):
+        f = t["func"]
+        if f["k"] == "const" and "fn" in f:
+            callee = (f.get("resolved") or {}).get("path") or f["fn"]
+            raw = f["fn"]
+        else:
+            callee = raw = None
+        args = tuple(self.expr_of_operand(a, depth, at) for a in t.get("args", []))
+        return ("call", callee, args, raw, dty)
+
+    def expr_of_local(self, l, depth=12, at=None):
+        b = self.b
+        name, ty = b.local_name(l), b.local_ty(l)
+        ds = b.defs().get(l, [])
+        partial = b.defs().get(("partial", l), [])
+        if b.is_arg(l) and not ds and not partial:
+            return ("arg", l, name, ty)
+        if depth <= 0 or at is None or (l, at) in self._stack:
+            return ("local", l, name, ty)
+        rd = _reaching(b, l, at)
+        if partial:
+            return self._with_partials(l, rd, partial, depth, at)
+        if b.is_arg(l) and (not rd or self._entry_reaches(l, at)):
+            return ("local", l, name, ty)
+        if not rd:
+            return ("local", l, name, ty)
+        self._stack.append((l, at))
+        try:
+            vals = []
+            for (bi, si, rv) in rd:
+                if si == "term":
+                    v = self.expr_of_call(rv, depth - 1, ty, (bi, si))
+                else:
+                    v = self.expr_of_rvalue(rv, depth - 1, (bi, si))
+                vals.append((bi, v))
+        finally:
+            self._stack.pop()
+        if len(vals) == 1:
+            return vals[0][1]
+        alts = []
+        for bi, v in vals:
+            conds = tuple(sorted(set(_cond(ex, lo, hi, (), self.arg_names) for ex, lo, hi in panics.dominating_conditions(b, bi))))
+            alts.append((conds, v))
+        common = set(alts[0][0])
+        for c, _ in alts[1:]:
+            common &= set(c)
+        alts = tuple(sorted((tuple(x for x in c if x not in common), pp_x(v, self.arg_names)) for c, v in alts))
+        return ("phi", alts)
+
+    def _with_partials(self, l, rd, partial, depth, at):
+        """a local that is also written field by field: base value (single reaching whole definition, or the
+        parameter's entry value) with the field stores that lie between it and `at` applied in order;
+        stores that only may have happened are marked `maybe`"""
+        b = self.b
+        name, ty = b.local_name(l), b.local_ty(l)
+        if len(rd) > 1:
+            return ("local", l, name, ty)
+        if rd:
+            bi, si, rv = rd[0]
+            self._stack.append((l, at))
+            try:
+                base = self.expr_of_call(rv, depth - 1, ty, (bi, si)) if si == "term" else self.expr_of_rvalue(rv, depth - 1, (bi, si))
+            finally:
+                self._stack.pop()
+            start = (bi, _idx(si))
+        elif b.is_arg(l):
+            base = ("arg", l, name, ty)
+            start = (0, -1)
+        else:
+            base = ("uninit", l)
+            start = (0, -1)
+        ups = []
+        for (pb, ps, st) in partial:
+            ppos = (pb, _idx(ps))
+            after_base = (pb == start[0] and ppos[1] > start[1]) or (pb != start[0] and b.dominates(start[0], pb))
+            if not after_base:
+                continue
+            before_use = (pb == at[0] and ppos[1] < _idx(at[1])) or (pb != at[0] and b.can_reach(pb, at[0]))
+            if not before_use:
+                continue
+            definite = pb == at[0] or b.dominates(pb, at[0])
+            place = st["p"] if "p" in st else st.get("dest")
+            fld = [e for e in (place or {}).get("proj", []) if isinstance(e, dict) and "f" in e]
+            fname = ".".join(str(e.get("name", e["f"])) for e in fld) or "?"
+            if st.get("k") == "assign":
+                self._stack.append((l, at))
+                try:
+                    val = self.expr_of_rvalue(st["rv"], depth - 1, (pb, ps))
+                finally:
+                    self._stack.pop()
+            elif st.get("k") == "call":
+                val = self.expr_of_call(st, depth - 1, None, (pb, ps))
+            else:
+                val = ("other", st.get("k"))
+            ups.append((ppos, fname, val, definite))
+        e = base
+        for ppos, fname, val, definite in sorted(ups, key=lambda u: u[0]):
+            e = ("call", ("with_" if definite else "maybe_with_") + fname, (e, val), None, None)
+        return e
+
+    def _entry_reaches(self, l, at):
+        """can the entry value of parameter l reach `at` without passing a redefinition?"""
+        b = self.b
+        defblocks = set(d[0] for d in b.defs().get(l, []))
+        if at[0] in defblocks and any(_idx(d[1]) < _idx(at[1]) for d in b.defs().get(l, []) if d[0] == at[0]):
+            return False
+        return b.can_reach(0, at[0], avoid=tuple(defblocks - {at[0], 0})) or at[0] == 0
+
+
+def _pp_phi(e, arg_names=None):
+    return "phi{%s}" % " | ".join("%s => %s" % (" & ".join(c) or "else", v) for c, v in e[1])
+
+
+def pp_x(e, arg_names=None):
+    """pp over trees that may contain phi nodes"""
+    def prep(x):
+        if isinstance(x, tuple) and x:
+            if x[0] == "phi":
+                return ("const", _pp_phi(x, arg_names), "phi")
+            if x[0] == "str" and len(x) == 2:
+                return ("const", "str" + repr(x[1]), "str")
+            return tuple(prep(y) if isinstance(y, tuple) else y for y in x)
+        return x
+    return re.sub(r"\{closure@[^}]*\}", "{closure}", shape.pp(clean(prep(e)), arg_names))
+
+
+def cases_x(F, path, depth=40, arg_names=None):
+    """like cases(), with multiply-assigned locals resolved (sequential updates / phi)"""
+    body = F.bodies.get(path)
+    if body is None:
+        return None
+    up = upvars_of(F, path)
+    xb = XB(body, arg_names)
+    out = []
+    for bi, si, s in body.stmts():
+        if s["k"] == "assign" and s["p"]["l"] == 0 and not s["p"]["proj"]:
+            e = xb.expr_of_rvalue(s["rv"], depth, (bi, si))
+            out.append((bi, e))
+    for bi, t in body.terms("call"):
+        d = t.get("dest")
+        if d and d["l"] == 0 and not d["proj"]:
+            out.append((bi, xb.expr_of_call(t, depth, None, (bi, "term"))))
+    res = []
+    for bi, e in out:
+        conds = sorted(set(_cond(ex, lo, hi, up, arg_names) for ex, lo, hi in panics.dominating_conditions(body, bi)))
+        res.append((tuple(conds), pp_x(shape.subst_upvars(e, up), arg_names)))
+    return sorted(res)
+
+
+def arg_x(body, term, i, block, depth=12):
+    """position-aware normal form of argument i of a call terminator in `block`"""
+    return pp_x(XB(body).expr_of_operand(term["args"][i], depth, (block, "term")))
+
+
+def expect_x(ck, F, rule, key, path, accepted, what, file="src/asm.rs"):
+    b = F.bodies.get(path)
+    if not ck.anchor(rule, path, b):
+        return False
+    got = render(cases_x(F, path))
+    ok = got in accepted
+    ck.ob(rule, key, ok, "%s; normal form: %s%s" % (what, got, "" if ok else "  (accepted: %s)" % " | ".join(accepted)), "%s:%s" % (file, b.line))
+    return ok
+
+
+# ---------------------------------------------------------------------------------------------
+def deep(F, path, x=True, depth=0):
+    """normal form of a body with the normal forms of the closures it mentions inlined (closure numbering disappears)"""
+    cs = (cases_x if x else cases)(F, path)
+    if cs is None:
+        return "<missing %s>" % path
+    s = render(cs)
+    if depth > 4:
+        return s
+
+    def sub(m):
+        child = "%s::{closure#%s}" % (path, m.group(1))
+        if child not in F.bodies:
+            return m.group(0)
+        return "\u03bb[" + deep(F, child, x, depth + 1) + "]"
+    return re.sub(r"\{closure#(\d+)\}", sub, s)
+
+
+def expect_deep(ck, F, rule, key, path, accepted, what, file="src/asm.rs", abbr=()):
+    b = F.bodies.get(path)
+    if not ck.anchor(rule, path, b):
+        return False
+    got = deep(F, path)
+    for a, r in abbr:
+        got = got.replace(a, r)
+    ok = got in accepted
+    ck.ob(rule, key, ok, "%s; normal form: %s%s" % (what, got, "" if ok else "  (accepted: %s)" % " | ".join(accepted)), "%s:%s" % (file, b.line))
+    return ok
